@@ -1092,7 +1092,7 @@ static void cmd_script(char* args) {
     int first = 1;
     while (tok) {
         if (!first)
-            fputc(' ', stdout);
+            fputc('\t', stdout); /* dumps contain spaces: operations are tab-separated */
         first = 0;
         if (tok[0] == 'r' && tok[1] >= '0' && tok[1] <= '9') {
             int k = atoi(tok + 1);
